@@ -178,17 +178,17 @@ UNITS = {
             ("src/header/mod.rs", ["struct:Header", "consts:Header", "fn:Header::get_header_list:assume"]),
             ("src/response/mod.rs", ["struct:Response", "struct:StatusCodeReasonPhrase", "struct:ResponseStatusCodeReasonPhrase",
                                      "const:STATUS_CODE_REASON_PHRASE", "struct:Error", "fn:Response::get_response:assume"]),
-            ("src/app/controller/index/mod.rs", ['struct:IndexController', 'fn:IndexController::is_matching:assume', 'fn:IndexController::process:assume']),
-            ("src/app/controller/style/mod.rs", ['struct:StyleController', 'fn:StyleController::is_matching:assume', 'fn:StyleController::process:assume']),
-            ("src/app/controller/script/mod.rs", ['struct:ScriptController', 'fn:ScriptController::is_matching:assume', 'fn:ScriptController::process:assume']),
-            ("src/app/controller/favicon/mod.rs", ['struct:FaviconController', 'fn:FaviconController::is_matching:assume', 'fn:FaviconController::process:assume']),
-            ("src/app/controller/not_found/mod.rs", ['struct:NotFoundController', 'fn:NotFoundController::is_matching:assume', 'fn:NotFoundController::process:assume']),
-            ("src/app/controller/file/initiate/mod.rs", ['struct:FileUploadInitiateController', 'fn:FileUploadInitiateController::is_matching:assume', 'fn:FileUploadInitiateController::process:assume']),
-            ("src/app/controller/form/url_encoded_enctype_post_method/mod.rs", ['struct:FormUrlEncodedEnctypePostMethodController', 'fn:FormUrlEncodedEnctypePostMethodController::is_matching:assume', 'fn:FormUrlEncodedEnctypePostMethodController::process:assume']),
-            ("src/app/controller/form/get_method/mod.rs", ['struct:FormGetMethodController', 'fn:FormGetMethodController::is_matching:assume', 'fn:FormGetMethodController::process:assume']),
-            ("src/app/controller/form/multipart_enctype_post_method/mod.rs", ['struct:FormMultipartEnctypePostMethodController', 'fn:FormMultipartEnctypePostMethodController::is_matching:assume', 'fn:FormMultipartEnctypePostMethodController::process:assume']),
-            ("src/app/controller/static_resource/mod.rs", ['struct:StaticResourceController', 'fn:StaticResourceController::is_matching:assume', 'fn:StaticResourceController::process:assume']),
-            ("src/app/mod.rs", ["struct:App", "fn:App::execute"]),
+            ("src/app/controller/index/mod.rs", ['struct:IndexController', 'fn:IndexController::is_matching:assume', 'fn:IndexController::process:assume', 'fn:IndexController::is_matching_request:assume', 'fn:IndexController::process_request:assume']),
+            ("src/app/controller/style/mod.rs", ['struct:StyleController', 'fn:StyleController::is_matching:assume', 'fn:StyleController::process:assume', 'fn:StyleController::is_matching_request:assume', 'fn:StyleController::process_request:assume']),
+            ("src/app/controller/script/mod.rs", ['struct:ScriptController', 'fn:ScriptController::is_matching:assume', 'fn:ScriptController::process:assume', 'fn:ScriptController::is_matching_request:assume', 'fn:ScriptController::process_request:assume']),
+            ("src/app/controller/favicon/mod.rs", ['struct:FaviconController', 'fn:FaviconController::is_matching:assume', 'fn:FaviconController::process:assume', 'fn:FaviconController::is_matching_request:assume', 'fn:FaviconController::process_request:assume']),
+            ("src/app/controller/not_found/mod.rs", ['struct:NotFoundController', 'fn:NotFoundController::is_matching:assume', 'fn:NotFoundController::process:assume', 'fn:NotFoundController::is_matching_request:assume', 'fn:NotFoundController::process_request:assume']),
+            ("src/app/controller/file/initiate/mod.rs", ['struct:FileUploadInitiateController', 'fn:FileUploadInitiateController::is_matching:assume', 'fn:FileUploadInitiateController::process:assume', 'fn:FileUploadInitiateController::is_matching_request:assume', 'fn:FileUploadInitiateController::process_request:assume']),
+            ("src/app/controller/form/url_encoded_enctype_post_method/mod.rs", ['struct:FormUrlEncodedEnctypePostMethodController', 'fn:FormUrlEncodedEnctypePostMethodController::is_matching:assume', 'fn:FormUrlEncodedEnctypePostMethodController::process:assume', 'fn:FormUrlEncodedEnctypePostMethodController::is_matching_request:assume', 'fn:FormUrlEncodedEnctypePostMethodController::process_request:assume']),
+            ("src/app/controller/form/get_method/mod.rs", ['struct:FormGetMethodController', 'fn:FormGetMethodController::is_matching:assume', 'fn:FormGetMethodController::process:assume', 'fn:FormGetMethodController::is_matching_request:assume', 'fn:FormGetMethodController::process_request:assume']),
+            ("src/app/controller/form/multipart_enctype_post_method/mod.rs", ['struct:FormMultipartEnctypePostMethodController', 'fn:FormMultipartEnctypePostMethodController::is_matching:assume', 'fn:FormMultipartEnctypePostMethodController::process:assume', 'fn:FormMultipartEnctypePostMethodController::is_matching_request:assume', 'fn:FormMultipartEnctypePostMethodController::process_request:assume']),
+            ("src/app/controller/static_resource/mod.rs", ['struct:StaticResourceController', 'fn:StaticResourceController::is_matching:assume', 'fn:StaticResourceController::process:assume', 'fn:StaticResourceController::is_matching_request:assume', 'fn:StaticResourceController::process_request:assume']),
+            ("src/app/mod.rs", ["struct:App", "fn:App::execute", "fn:App::handle_request"]),
         ],
         "contracts": ["contracts/header.vc", "contracts/server.vc", "contracts/static.vc", "contracts/app.vc"],
     },
@@ -208,11 +208,11 @@ UNITS = {
             ("src/header/mod.rs", ["struct:Header", "consts:Header"]),
             ("src/response/mod.rs", ["struct:Response", "struct:StatusCodeReasonPhrase", "struct:ResponseStatusCodeReasonPhrase",
                                      "const:STATUS_CODE_REASON_PHRASE", "struct:Error"]),
-            ("src/app/controller/index/mod.rs", ['consts:IndexController', 'struct:IndexController', 'fn:IndexController::is_matching:verify', 'fn:IndexController::process:verify']),
-            ("src/app/controller/style/mod.rs", ['consts:StyleController', 'struct:StyleController', 'fn:StyleController::is_matching:verify', 'fn:StyleController::process:verify']),
-            ("src/app/controller/script/mod.rs", ['consts:ScriptController', 'struct:ScriptController', 'fn:ScriptController::is_matching:verify', 'fn:ScriptController::process:verify']),
-            ("src/app/controller/favicon/mod.rs", ['consts:FaviconController', 'struct:FaviconController', 'fn:FaviconController::is_matching:verify', 'fn:FaviconController::process:verify']),
-            ("src/app/controller/not_found/mod.rs", ['consts:NotFoundController', 'struct:NotFoundController', 'fn:NotFoundController::is_matching:verify', 'fn:NotFoundController::process:verify']),
+            ("src/app/controller/index/mod.rs", ['consts:IndexController', 'struct:IndexController', 'fn:IndexController::is_matching:verify', 'fn:IndexController::process:verify', 'fn:IndexController::is_matching_request', 'fn:IndexController::process_request']),
+            ("src/app/controller/style/mod.rs", ['consts:StyleController', 'struct:StyleController', 'fn:StyleController::is_matching:verify', 'fn:StyleController::process:verify', 'fn:StyleController::is_matching_request', 'fn:StyleController::process_request']),
+            ("src/app/controller/script/mod.rs", ['consts:ScriptController', 'struct:ScriptController', 'fn:ScriptController::is_matching:verify', 'fn:ScriptController::process:verify', 'fn:ScriptController::is_matching_request', 'fn:ScriptController::process_request']),
+            ("src/app/controller/favicon/mod.rs", ['consts:FaviconController', 'struct:FaviconController', 'fn:FaviconController::is_matching:verify', 'fn:FaviconController::process:verify', 'fn:FaviconController::is_matching_request', 'fn:FaviconController::process_request']),
+            ("src/app/controller/not_found/mod.rs", ['consts:NotFoundController', 'struct:NotFoundController', 'fn:NotFoundController::is_matching:verify', 'fn:NotFoundController::process:verify', 'fn:NotFoundController::is_matching_request', 'fn:NotFoundController::process_request']),
         ],
         "contracts": ["contracts/mime.vc", "contracts/app.vc", "contracts/static.vc"],
     },
@@ -245,19 +245,21 @@ UNITS = {
             ("src/entry_point/mod.rs", ["fn:get_request_allocation_size:assume"]),
             ("src/body/form_urlencoded/mod.rs", ["struct:FormUrlEncoded", "fn:FormUrlEncoded::parse:assume"]),
             ("src/app/controller/file/initiate/mod.rs", ["struct:FileUploadInitiateController", "fn:FileUploadInitiateController::is_matching",
-                                    "fn:FileUploadInitiateController::process"]),
+                                    "fn:FileUploadInitiateController::process", "fn:FileUploadInitiateController::is_matching_request", "fn:FileUploadInitiateController::process_request"]),
             ("src/app/controller/form/get_method/mod.rs", ["struct:FormGetMethodController", "fn:FormGetMethodController::is_matching",
-                                    "fn:FormGetMethodController::process"]),
+                                    "fn:FormGetMethodController::process", "fn:FormGetMethodController::is_matching_request", "fn:FormGetMethodController::process_request"]),
             ("src/ext/string_ext/mod.rs", ["struct:StringExt", "fn:StringExt::filter_ascii_control_characters:assume"]),
             ("src/body/multipart_form_data/mod.rs", ["struct:FormMultipartData", "struct:Part", "fn:Part::get_header:assume", "fn:FormMultipartData::parse:assume",
                                                      "fn:FormMultipartData::extract_boundary"]),
             ("src/header/content_disposition/mod.rs", ["struct:ContentDisposition", "struct:DispositionType", "const:DISPOSITION_TYPE", "fn:ContentDisposition::parse:assume"]),
             ("src/app/controller/form/multipart_enctype_post_method/mod.rs", ["struct:FormMultipartEnctypePostMethodController",
                                     "consts:FormMultipartEnctypePostMethodController",
-                                    "fn:FormMultipartEnctypePostMethodController::is_matching", "fn:FormMultipartEnctypePostMethodController::process"]),
+                                    "fn:FormMultipartEnctypePostMethodController::is_matching", "fn:FormMultipartEnctypePostMethodController::process",
+                                    "fn:FormMultipartEnctypePostMethodController::is_matching_request", "fn:FormMultipartEnctypePostMethodController::process_request"]),
             ("src/app/controller/form/url_encoded_enctype_post_method/mod.rs", ["struct:FormUrlEncodedEnctypePostMethodController",
                                     "consts:FormUrlEncodedEnctypePostMethodController",
-                                    "fn:FormUrlEncodedEnctypePostMethodController::is_matching", "fn:FormUrlEncodedEnctypePostMethodController::process"]),
+                                    "fn:FormUrlEncodedEnctypePostMethodController::is_matching", "fn:FormUrlEncodedEnctypePostMethodController::process",
+                                    "fn:FormUrlEncodedEnctypePostMethodController::is_matching_request", "fn:FormUrlEncodedEnctypePostMethodController::process_request"]),
         ],
         "contracts": ["contracts/request.vc", "contracts/server.vc", "contracts/app.vc", "contracts/forms.vc"],
     },
@@ -291,7 +293,7 @@ UNITS = {
             SYMBOL_SRC,
             ("src/ext/string_ext/mod.rs", ["struct:StringExt", "fn:StringExt::truncate_new_line_carriage_return", "fn:StringExt::filter_ascii_control_characters:assume"]),
             ("src/header/mod.rs", ["struct:Header", "fn:Header::as_string", "fn:Header::parse_header"]),
-            ("src/body/multipart_form_data/mod.rs", ["struct:FormMultipartData", "struct:Part", "fn:FormMultipartData::is_delimiter", "fn:FormMultipartData::parse",
+            ("src/body/multipart_form_data/mod.rs", ["struct:FormMultipartData", "struct:Part", "fn:Part::get_header", "fn:FormMultipartData::is_delimiter", "fn:FormMultipartData::parse",
                                                      "fn:FormMultipartData::parse_form_part_recursively", "fn:FormMultipartData::extract_boundary",
                                                      "fn:FormMultipartData::generate_part", "fn:FormMultipartData::generate"]),
             ("src/header/content_disposition/mod.rs", ["struct:ContentDisposition", "struct:DispositionType", "const:DISPOSITION_TYPE", "fn:ContentDisposition::parse"]),
@@ -561,3 +563,22 @@ PROPS = {
         "assumptions": [],
     },
 }
+
+
+def _fn_modes():
+    out = {}
+    for un, u in UNITS.items():
+        for _src, items in u["sources"]:
+            for it in items:
+                if it.startswith("fn:"):
+                    body, mode = it[3:], "verify"
+                    for m in ("assume", "verify", "plain"):
+                        if body.endswith(":" + m):
+                            mode, body = m, body[:-len(m) - 1]
+                    out.setdefault(body, {}).setdefault(mode, []).append(un)
+    return out
+
+
+def proved_in(fn):
+    """units in which the rws function fn is extracted WITH its body and verified against its contract"""
+    return _fn_modes().get(fn, {}).get("verify", [])
